@@ -11,7 +11,17 @@ def run(ctx):
                       K=3, acc=("x",), level=2, maxlen=1, fates=("ok",))
         X.model_check(ctx, "K=2, 2 accounts + world lock, programs <= 1 op, one retry, level 2",
                       allow_zero=("TopFail",), K=2, acc=("x", "y"), level=2, maxlen=1, fates=("ok", "retry1"))
+        X.model_check(ctx, "K=2, 1 account, world read/write locks and Ensure(), level 2", allow_zero=("TopFail",),
+                      K=2, acc=("x",), level=2, maxlen=1, fates=("ok",), world=("R", "W"), ensure=True)
         if not ctx.quick():
+            X.model_check(ctx, "K=3, 1 account, world read/write locks and Ensure(), level 2", allow_zero=("TopFail",),
+                          K=3, acc=("x",), level=2, maxlen=1, fates=("ok",), world=("R", "W"), ensure=True)
+            # the world read lock as implemented (reader not registered as locker): TLC derives the stale read
+            rc = ctx.tlc("exec", "MC_ParallelExec", "MC_ParallelExec.cfg", expect_violation=True, count=False, timeout=900,
+                         constants=X.consts(K=3, acc=("x",), level=2, maxlen=1, fates=("ok",), world=("R", "W"), implwr="code"),
+                         label="world read lock as implemented (expected to violate)")
+            if rc.violation != "ReadsAreSequential":
+                raise X.MachineryError("vacuity: the ImplWR=code variant does not violate ReadsAreSequential")
             X.model_check(ctx, "K=2, 2 accounts + world lock, programs <= 2 ops, one retry, level 2",
                           allow_zero=("TopFail",), K=2, acc=("x", "y"), level=2, maxlen=2, fates=("ok", "retry1"))
             X.model_check(ctx, "K=3, 2 accounts + world lock, programs <= 1 op, level 3", allow_zero=("TopFail",),
@@ -60,5 +70,6 @@ def run(ctx):
         assumptions=["accounts are touched only through contract.Context.GetAccountState balance reads/writes of a "
                      "harness transaction type; real contracts / EE are not involved",
                      "programs only touch accounts they declared (as transaction handlers do)",
-                     "world read locks and Ensure() are not modelled",
+                     "the world read lock is modelled in two variants: schedules come from the variant that matches the code "
+                     "(later writers do not wait for a world reader), values are judged against sequential execution",
                      "interleavings inside one worldVirtualState method are not explored (they run under its mutex)"])
